@@ -72,6 +72,7 @@ static struct packet inpkt;
 static int inpkt_delivered;	/* inpkt.seqno was completed and written to tun */
 int outchunkresent = 0;
 static time_t outchunktime;		/* when the current chunk was last (re)sent */
+static int server_up_seqno = -1;	/* upstream seqno in the server's latest answer */
 
 /* My userid at the server */
 static char userid;
@@ -812,6 +813,15 @@ tunnel_tun(int tun_fd, int dns_fd)
 	outpkt.sentlen = 0;
 	outpkt.offset = 0;
 	outpkt.seqno = (outpkt.seqno + 1) & 7;
+	if (conn == CONN_DNS_NULL && server_up_seqno >= 0 &&
+	    recent_seqno(server_up_seqno, outpkt.seqno)) {
+		/* We gave up so many packets the server never saw that our
+		   numbering has run into what the server takes for copies of
+		   its last few packets: it would drop this one and the next
+		   ones unseen, however long ago the trouble was. Continue
+		   from the number the server is at. */
+		outpkt.seqno = (server_up_seqno + 1) & 7;
+	}
 	outpkt.len = outlen;
 	outpkt.fragment = 0;
 	outchunkresent = 0;
@@ -930,7 +940,11 @@ tunnel_dns(int tun_fd, int dns_fd)
 	/* Downstream data traffic */
 
 	if (read > 2 && new_down_seqno != inpkt.seqno &&
-	    recent_seqno(inpkt.seqno, new_down_seqno)) {
+	    recent_seqno(inpkt.seqno, new_down_seqno) && q.id != chunkid) {
+		/* (The answer to our newest query is no old copy: the server
+		   made it after everything else we have seen, so another
+		   seqno in there is a newer one, even if we missed so many
+		   packets that it looks like one of the last few.) */
 		/* This is the previous seqno, or a bit earlier.
 		   Probably out-of-sequence dupe due to unreliable
 		   intermediary DNS. Don't get distracted, but send
@@ -983,6 +997,7 @@ tunnel_dns(int tun_fd, int dns_fd)
 
 	/* Okay, we have a recent downstream packet */
 	lastdownstreamtime = time(NULL);
+	server_up_seqno = up_ack_seqno;
 
 	/* In lazy mode, we shouldn't get much replies to our most-recent
 	   query, only during heavy data transfer. Since this means the server
